@@ -6,7 +6,7 @@
     cowat / supst interpreted by an arbitrary function family [fn]. *)
 From Coq Require Import ZArith QArith Qreals Reals List Bool.
 From Gen Require Import GenThermo GenTraced.
-From P Require Import Expr Common BoundsDefs Bounds Tsat.
+From P Require Import Expr Common BoundsDefs Bounds Tsat Stateless.
 Import ListNotations.
 Close Scope Q_scope.
 Open Scope R_scope.
@@ -57,3 +57,16 @@ Theorem tsat_sat_inverse : forall (sat solve : R -> R) (coef : nat -> R),
             Q2R d001 <= t <= Q2R Tc1_C_Q /\ sat t = p.
 Proof. exact sat_of_tsat. Qed.
 Print Assumptions tsat_sat_inverse.
+
+(** ** range checking does not depend on earlier calls (model statement; Stateless.v: the model has
+       no state by construction, the implementation side is tested by the oracle's call sequences) *)
+Theorem answer_independent_of_history : forall (fn : fnR) (coef : routine -> nat -> R) (before after : list call) (c : call),
+  nth (length before) (answers fn coef (before ++ c :: after)) RNoPath = answer fn coef c.
+Proof. exact answer_in_any_history. Qed.
+Print Assumptions answer_independent_of_history.
+
+Theorem tsat_range_check_after_any_history : forall (fn : fnR) (coef : routine -> nat -> R) (before after : list call) (p : R),
+  let r := nth (length before) (answers fn coef (before ++ {| c_routine := Rtsat; c_bounds := true; c_args := [p] |} :: after)) RNoPath in
+  (~ tsat_in_range fn p -> r = RNone) /\ (tsat_in_range fn p -> r = RRet [solve_ fn p]).
+Proof. exact tsat_checked_after_any_history. Qed.
+Print Assumptions tsat_range_check_after_any_history.
